@@ -183,22 +183,66 @@ def r2(ctx, F):
               'the push command does not set the destination mtime from the integer source mtime', loc(b, b.lo) if b is not None else None)
 
 
+def derivation_calls(F, body, op, calls, consts, depth=0, seen=None):
+    """collect the callees (and constant arguments) of every call that contributes to the value of `op`, through call arguments
+    and through the bodies of closures handed to combinators"""
+    seen = set() if seen is None else seen
+    fl = flow_of(body)
+    for o in fl.origins(op):
+        k = (body.path, o.kind, str(o.key), o.bb)
+        if k in seen or depth > 12:
+            continue
+        seen.add(k)
+        if o.kind == 'call' and o.bb is not None:
+            t = body.blocks[o.bb]['term']
+            calls.add(o.key)
+            for a in t['args']:
+                if a['k'] == 'const':
+                    consts.add(a.get('dbg', ''))
+                else:
+                    derivation_calls(F, body, a, calls, consts, depth + 1, seen)
+        elif o.kind == 'agg' and F.body(o.key) is not None:
+            cb = F.body(o.key)
+            for nb in [cb] + [x for x in F.nested(o.key) if x.path != cb.path]:
+                for bb, t in flow_of(nb).calls():
+                    calls.add(callee(t))
+                    for a in t['args']:
+                        if a['k'] == 'const':
+                            consts.add(a.get('dbg', ''))
+
+
 def r3(ctx, F):
     # mtime_secs
     import semantic_anchors
     MT = semantic_anchors.mtime_helper(F) or 'meta::mtime_secs'      # located by use: (&Metadata) -> i64 feeding FileMeta.mtime
     b = F.body(MT)
-    if b is None:
-        ctx.missing('C14.R3', 'meta::mtime_secs')
     calls = set()
     consts = set()
-    for body in F.nested(MT):
-        fl = flow_of(body)
-        for bb, t in fl.calls():
-            calls.add(callee(t))
-            for a in t['args']:
-                if a['k'] == 'const':
-                    consts.add(a.get('dbg', ''))
+    if b is None:
+        # no helper: the conversion is written out where FileMeta is built from a local stat - judge the derivation of that
+        # `mtime` value (every call that contributes to it, closures of combinators included)
+        for body in F.bodies.values():
+            if '::tests' in body.path or not body.file.endswith('bin/copia/meta.rs'):
+                continue
+            fl = flow_of(body)
+            for bi in fl.cfg.reachable():
+                for st in body.blocks[bi]['stmts']:
+                    rv = st['rv']
+                    if rv['k'] == 'agg' and rv.get('adt') == 'plan::FileMeta':
+                        fields = dict(zip(rv.get('fields') or ['size', 'mtime'], rv['ops']))
+                        if any(o.kind == 'call' and o.key == 'std::fs::Metadata::len' for o in fl.origins(fields['size'])):
+                            b = body
+                            derivation_calls(F, body, fields['mtime'], calls, consts)
+        if b is None:
+            ctx.missing('C14.R3', 'meta::mtime_secs (or the conversion written out where FileMeta is built)')
+    else:
+        for body in F.nested(MT):
+            fl = flow_of(body)
+            for bb, t in fl.calls():
+                calls.add(callee(t))
+                for a in t['args']:
+                    if a['k'] == 'const':
+                        consts.add(a.get('dbg', ''))
     ok = 'std::fs::Metadata::modified' in calls and 'std::time::SystemTime::duration_since' in calls and 'std::time::Duration::as_secs' in calls \
         and any('UNIX_EPOCH' in c for c in consts) and not any(x in calls for x in ('std::time::Duration::as_millis', 'std::time::Duration::as_nanos',
                                                                                   'std::time::Duration::subsec_nanos', 'std::time::Duration::as_secs_f64'))
@@ -329,10 +373,26 @@ def r6(ctx, F):
                     stats |= {(x.kind, x.key, x.bb) for x in call_arg_origins(fl, o.bb, 0) if x.kind != 'comb'}
                 mstats = set()
                 mo = [o for o in fl.origins(fields['mtime']) if o.kind != 'comb']
-                via = all(o.kind == 'call' and o.key == (semantic_anchors.mtime_helper(F) or 'meta::mtime_secs') for o in mo) and bool(mo)
+                MT_ = semantic_anchors.mtime_helper(F) or 'meta::mtime_secs'
+                via = all(o.kind == 'call' and o.key == MT_ for o in mo) and bool(mo)
                 for o in mo:
-                    if o.kind == 'call':
+                    if o.kind == 'call' and o.key == MT_:
                         mstats |= {(x.kind, x.key, x.bb) for x in call_arg_origins(fl, o.bb, 0) if x.kind != 'comb'}
+                if not via:
+                    # the conversion written out: the Metadata whose `modified()` the value derives from
+                    work, seen_ = list(mo), set()
+                    while work:
+                        o = work.pop()
+                        if o.kind != 'call' or o.bb is None or (o.key, o.bb) in seen_:
+                            continue
+                        seen_.add((o.key, o.bb))
+                        if o.key == 'std::fs::Metadata::modified':
+                            via = True
+                            mstats |= {(x.kind, x.key, x.bb) for x in call_arg_origins(fl, o.bb, 0) if x.kind != 'comb'}
+                            continue
+                        for a in body.blocks[o.bb]['term']['args']:
+                            if a['k'] != 'const':
+                                work.extend(x for x in fl.origins(a) if x.kind != 'comb')
                 ctx.check(via and mstats == stats, 'C14.R6', key + ':one-stat', 'size = m.len() and mtime = mtime_secs(m) of the same Metadata',
                           'size and mtime of a FileMeta are not taken from the same stat result', loc(body, st.get('line') or body.lo))
                 for (k, c, sbb) in sorted(stats, key=str):
